@@ -209,7 +209,12 @@ class _MaskedArrayFunc(object):
 
         # transform back to numpy array
         if np.ma.isMaskedArray(result):
-            result = result.filled(np.nan)
+            # where all values are missing: the reduction of no value at all
+            fill = {'all': True, 'any': False}.get(self.__name__, np.nan)
+            if result is np.ma.masked:
+                result = fill  # scalar result
+            else:
+                result = result.filled(fill)
 
         return result
 
